@@ -18,7 +18,8 @@ Definition allM {A} (f : A -> res bool) : list A -> nat -> res bool :=
 
 Definition bytes_ok (v : sval) : res bool :=
   do lp <- as_bytes v;
-  Ok (negb ((fst lp >? 0) && match snd lp with PNull => true | _ => false end)).
+  (* bd->len > 0 on a size_t *)
+  Ok (negb (negb (fst lp =? 0) && match snd lp with PNull => true | _ => false end)).
 
 Definition ck_elem (rec : msg -> res bool) (f : field) (v : sval) : res bool :=
   match f_type f with
@@ -58,7 +59,7 @@ Definition ck_field rec (unions : list (Z * sval)) (f : field) (s : slot) : res 
   | SRep n _ arr =>
       if label_eqb (f_label f) LRepeated then
         match arr with
-        | None => Ok (negb (n >? 0))
+        | None => Ok (n =? 0)          (* *quantity > 0 on a size_t *)
         | Some l =>
             match f_type f with
             | TMessage | TString | TBytes => allM (ck_elem rec f) l (Z.to_nat n)
